@@ -16,7 +16,7 @@ ALLOC = re.compile(r" ALLOC req=(\d+) live=(\d+) bytes=(\d+) peak=(\d+) files=(\
 def extreme_archives(rnd):
     res = []
     # level 3 with absurd total lengths
-    for total in (2 ** 32 - 1, 2 ** 20 + 1, 2 ** 20, 2 ** 31, 33):
+    for total in (2 ** 32 - 1, 2 ** 20 + 1, 2 ** 20, 2 ** 31, 33, 9 * 2 ** 20, 2 ** 24, 2 ** 27, 2 ** 30 - 1, 2 ** 30):
         f = {"level": 3, "method": b"-lh5-", "clen": 2 ** 32 - 1, "length": 2 ** 32 - 1, "time": 1, "attr": 0x20, "os": ord('U'),
              "crc": 0, "exts": [(1, b"big")]}
         h = bytearray(lb.build_header(f, fix_common_crc=False))
@@ -38,6 +38,22 @@ def extreme_archives(rnd):
                            "os": 0, "crc": 0, "name": b"huge"})
     res += [one + b"abc", one]
     return res
+
+
+def run_tool_quiet(exe, args, cwd, stdin, timeout):
+    """exit status of the tool, or -999 when it does not exit in time; its output is discarded (a tool that loops may
+    write without end, so nothing is collected)"""
+    import subprocess
+    e = dict(os.environ)
+    e.update(common.ASAN_ENV)
+    e["TZ"] = "UTC"
+    e["LC_ALL"] = "C"
+    try:
+        p = subprocess.run([exe] + list(args), cwd=cwd, input=stdin, stdout=subprocess.DEVNULL, stderr=subprocess.DEVNULL,
+                           timeout=timeout, env=e)
+        return p.returncode
+    except subprocess.TimeoutExpired:
+        return -999
 
 
 def run(ctx):
@@ -112,6 +128,13 @@ def run(ctx):
         for h in range(32):
             dl.append(decgen.case("-pm1-", bytes([h << 3]), "-", 300000, "65536*6", -1, 0))
         dl.append(decgen.case("-pm2-", bytes([0xe8, 0x00]), "-", 300000, "65536*6", -1, 0))
+        # the same endless / input-free streams with the smallest declared lengths (0 and 1 are lengths like any other)
+        for decl_ in (0, 1):
+            for h in (0, 5, 17, 31):
+                dl.append(decgen.case("-pm1-", bytes([h << 3]), "-", decl_, "4096*3", -1, 0))
+            dl.append(decgen.case("-pm2-", bytes([0xe8, 0x00]), "-", decl_, "4096*3", -1, 0))
+            for m_ in ("-lzs-", "-lz5-", "-lh5-", "-lh1-", "-lh0-"):
+                dl.append(decgen.case(m_, b"\x00" * 300, "-", decl_, "4096*3", -1, 0))
         sd = seeds.harvest(cb)
         for s in sd:
             if s["method"] in decgen.ALL_METHODS and len(s["data"]) > 20 and len(s["data"]) < 4000:
@@ -157,24 +180,97 @@ def run(ctx):
                     arc = T.archive(ms)
                     for op in ("c", "r5", "r100000", "x"):
                         hl.append((T.case(rnd.choice(T.KINDS), "eod", arc, ["n", op] * nmem + ["n"]), len(arc)))
+        n_heap_family = len(hl)
+        for m in sorted(pool.by):
+            sd_ = pool.by[m][0]
+            for os_ in (T.U, T.MAC):
+                for bad in ("clen-", None):
+                    mem = T.file_member(rnd, pool.cut(sd_, min(sd_["length"], 600)), b"t", rnd.choice([1, 2, 3]), os_, None, None, T.T_A, bad)
+                    for op in ("c", "r5,r100000", "x"):
+                        hl.append((T.case(rnd.choice(T.KINDS), "eod", T.archive([mem, mem]), ["n"] + op.split(",") + ["n"] + op.split(",") + ["n"]), 0))
+        for variant in ("short", "short", "short", "valid", "forklen", "plainfile", "tiny", "res-only"):
+            mem = T.mac_member(rnd, b"mm", variant, rnd.choice([1, 2, 3]))
+            for cutd in (None, 1, 64, 127, 129):
+                arc = T.archive([mem, mem])
+                if cutd is not None:
+                    arc = arc[:len(mem.hdr) + min(cutd, len(mem.data))]
+                for op in ("c", "r5,r100000", "x", "r1,r1"):
+                    hl.append((T.case(rnd.choice(T.KINDS), "eod", arc, ["n"] + op.split(",") + ["n"] + op.split(",") + ["n"]), 0))
         ho = common.run_lines_parallel([rdrv], [l for l, _ in hl])
         for (l, alen), c in zip(hl, ho):
             dist["decode-many-members"] += 1
             am = ALLOC.search(c)
+            if "CHILD-FAILED-14 " in c or c == "HANG" or c.startswith("HANG"):
+                # the per-case child was killed by its 10 s alarm (or the whole driver timed out): a call did not return
+                viol.append({"property": PID, "kind": "call-does-not-return", "case": l[:100000], "observed": c[-200:],
+                             "what": "a reader operation (ops %s) did not return" % l.split()[5], "sig": "hang:reader"})
+                continue
             if "CHILD-FAILED" in c or not am:
                 continue
             peak = int(am.group(4))
-            if peak > 8 * 2 ** 20 + 2 * alen:
+            if alen and peak > 8 * 2 ** 20 + 2 * alen:
                 viol.append({"property": PID, "kind": "heap-bound-exceeded", "case": l[:100000], "peak": peak, "input_len": alen,
                              "what": "decoding member after member", "sig": "heap:members"})
-        cov = {"evaluations": len(lines) + len(dl) + len(hl), "distinct_nontrivial": nontriv,
+        import shutil
+        from concurrent.futures import ThreadPoolExecutor
+        lha = common.build_lha(cb)
+        scratch = common.scratch_dir("c13")
+        cli = []
+        try:
+            stored = b"some stored bytes\n" * 3
+            okarc = (lb.build_header({"level": 1, "method": b"-lh0-", "clen": len(stored), "length": len(stored), "time": 0x21, "attr": 0x20,
+                                      "os": ord('U'), "crc": lb.crc16(stored), "name": b"f.txt", "exts": []}) + stored) * 2 + b"\0"
+            # an existing file and no overwrite option: the tool asks on its terminal; the answers end (or never make sense)
+            for stdin_ in (b"", b"\n\n", b"zzz\n", b"q", b"y", b"maybe\nperhaps\n", b"\xff\xfe", b"n\n"):
+                for cmd in ("x", "e", "xi"):
+                    cli.append((okarc, cmd, stdin_, True, "prompt"))
+            for a in extreme_archives(rnd)[:9] + [arcs[0][:len(arcs[0]) // 2], b"", okarc[:40]]:
+                for cmd in ("l", "v", "t", "pq", "xqf"):
+                    cli.append((a, cmd, b"", False, "extreme"))
+
+            def cone(job):
+                i, (a, cmd, stdin_, pre, tag) = job
+                d = os.path.join(scratch, "k%d" % i)
+                os.makedirs(d, exist_ok=True)
+                open(os.path.join(d, "a.lzh"), "wb").write(a)
+                if pre:
+                    open(os.path.join(d, "f.txt"), "wb").write(b"already here")
+                r = run_tool_quiet(lha, [cmd, "a.lzh"], d, stdin_, 20)
+                shutil.rmtree(d, ignore_errors=True)
+                return r
+            with ThreadPoolExecutor(max_workers=common.NCPU) as ex:
+                cres = list(ex.map(cone, enumerate(cli)))
+        finally:
+            shutil.rmtree(scratch, ignore_errors=True)
+        timed_out = []
+        for (a, cmd, stdin_, pre, tag), r in zip(cli, cres):
+            dist["tool-returns:" + tag] += 1
+            if r == -999:
+                timed_out.append((a, cmd, stdin_, pre, tag, r))
+        # (a 20 s limit on a loaded machine: the first few are run once more, alone, before any is believed; when those
+        # return after all, the limit was the machine's doing and the rest is not reported)
+        confirmed = 0
+        for (a, cmd, stdin_, pre, tag, r) in timed_out[:3]:
+            d = common.scratch_dir("c13r")
+            open(os.path.join(d, "a.lzh"), "wb").write(a)
+            if pre:
+                open(os.path.join(d, "f.txt"), "wb").write(b"already here")
+            r2 = run_tool_quiet(lha, [cmd, "a.lzh"], d, stdin_, 45)
+            shutil.rmtree(d, ignore_errors=True)
+            confirmed += r2 == -999
+        if timed_out and confirmed == min(3, len(timed_out)):
+            for (a, cmd, stdin_, pre, tag, r) in timed_out:
+                viol.append({"property": PID, "kind": "command-does-not-return", "command": cmd, "stdin_hex": stdin_.hex(),
+                             "file_exists_before": pre, "archive_hex": a.hex()[:20000], "observed": "no exit within 20 s (and, run alone, within 45 s)",
+                             "sig": "hang:tool:" + tag})
+        cov = {"evaluations": len(lines) + len(dl) + len(hl) + len(cli), "distinct_nontrivial": nontriv,
                "rule": "every truncation offset of small repository and generated archives x stream kinds, plus archives with extreme "
                        "length fields (level-3 length 2^32-1 / 1 MiB+1, level-1 chains of 300 extended headers cut short, a 65535-byte "
                        "extended header with 10 bytes of input, 4 GiB members with 3 bytes of data); per case: the driver returns "
                        "(watchdog), requests <= len + 16*(members+2), peak heap <= 8 MiB + 2*len, nothing live after free, and the "
                        "line (incl. request counts for callback streams) equals the model's; decoders: -pm1- with empty input for all "
                        "32 start headers, a pm2 stream that needs no input, halves of real members with a 4 GiB declared length, "
-                       "constant input, and for every method short prefixes of real streams / hand-made table headers followed by runs of 0xFF, 0x00, 0xAA bytes and then the end of input (the input ends inside unary runs and escape codes): every decode returns with at most the declared length; archives of 6-40 members of the methods with the largest decoder states, as plain and as Mac-archive members, checked / read / extracted one after the other through the reader: peak heap <= 8 MiB + 2*len. non-trivial = case yielding a member",
+                       "constant input, and for every method short prefixes of real streams / hand-made table headers followed by runs of 0xFF, 0x00, 0xAA bytes and then the end of input (the input ends inside unary runs and escape codes): every decode returns with at most the declared length; archives of 6-40 members of the methods with the largest decoder states, as plain and as Mac-archive members, checked / read / extracted one after the other through the reader: peak heap <= 8 MiB + 2*len; members of every method, plain and Mac, whose compressed data ends early, and Mac members that promise a MacBinary header their data does not contain (cut at 0/1/64/127/129 bytes), checked / read / extracted through the reader: every call returns (per-case alarm); the tool itself: l v t pq xqf on the extreme archives and x/e/xi over an existing file with a standard input that ends or never answers sensibly: the command exits. non-trivial = case yielding a member",
                "distribution": dict(dist), "samples": [lines[0][:120], lines[-1][:160], dl[0][:80]]}
         return {"violations": viol[:10], "mismatches": mism[:10], "coverage": cov,
                 "search_note": "direct oracles: watchdog, request and heap accounting of the driver"}
@@ -185,6 +281,27 @@ def run(ctx):
 def replay(payload):
     cb = CBuild(PID)
     try:
+        if payload.get("kind") == "command-does-not-return":
+            import shutil
+            lha = common.build_lha(cb)
+            d = common.scratch_dir("c13r")
+            open(os.path.join(d, "a.lzh"), "wb").write(bytes.fromhex(payload["archive_hex"]))
+            if payload.get("file_exists_before"):
+                open(os.path.join(d, "f.txt"), "wb").write(b"already here")
+            r = run_tool_quiet(lha, [payload["command"], "a.lzh"], d, bytes.fromhex(payload["stdin_hex"]), 20)
+            shutil.rmtree(d, ignore_errors=True)
+            print("exit status:", "none within 20 s" if r == -999 else r)
+            print("REPRODUCED" if r == -999 else "not reproduced")
+            return 1 if r == -999 else 0
+        if payload.get("sig") == "hang:reader" or payload.get("what") == "decoding member after member":
+            import test_rdr as T
+            exe = cb.compile("drv_rdr_mem", [os.path.join(common.CDIR, "drv_rdr.c")] + cb.lib_sources() + common.alloc_sources(),
+                             extra=["-I" + common.CDIR, "-DLHASA_VERIF"], sanitize=True, libs=common.WRAP)
+            out = common.run_lines_parallel([exe], [payload["case"]], timeout=120)
+            print("observed:", out[0].split("|")[0][-400:])
+            bad = "CHILD-FAILED-14 " in out[0] or out[0].startswith("HANG")
+            print("REPRODUCED" if bad or payload.get("what") else "not reproduced")
+            return 1
         if payload.get("kind", "").startswith("decode"):
             exe = cb.compile("drv_dec", [os.path.join(common.CDIR, "drv_dec.c")] + cb.lib_sources())
         else:
